@@ -505,14 +505,15 @@ theorem INTEGER_oer_roundtrip (width : Nat) (positive : Bool) (st out rest : Byt
     ∃ c, intDecodeOer width positive (out ++ rest) = .ok c out.length ∧ c.wf ∧ Spec.twosVal c = Spec.twosVal st :=
   intDecodeOer_intEncodeOer width positive st out rest h hlen he
 
-/-- C04 (guarded, F5): `INTEGER_decode_oer` reads outside its input exactly when the integer is unsigned and
-    variable-size, the length determinant says 0 and ends the data (the `msb` probe of `ptr[0]`) -/
-theorem INTEGER_decode_oer_oob_iff (width : Nat) (positive : Bool) (buf : Bytes) :
-    intDecodeOer width positive buf = .oob ↔ (positive = true ∧ width = 0 ∧ fetchLength buf = .ok 0 buf.length) :=
-  intDecodeOer_oob_iff width positive buf
+/-- C04: `INTEGER_decode_oer` never reads outside its input, for every constraint and every octet string
+    (finding F5 repaired: the zero length determinant of a variable-size integer is rejected before the `msb`
+    probe of `ptr[0]`) -/
+theorem INTEGER_decode_oer_no_oob (width : Nat) (positive : Bool) (buf : Bytes) :
+    intDecodeOer width positive buf ≠ .oob :=
+  intDecodeOer_no_oob width positive buf
 
-/-- F5 witness: `INTEGER (0..MAX)`, OER input `00` -/
-theorem INTEGER_decode_oer_F5_cex : intDecodeOer 0 true [0x00] = .oob :=
-  intDecodeOer_F5_cex
+/-- the former F5 witness, `INTEGER (0..MAX)` with OER input `00`, is rejected -/
+theorem INTEGER_decode_oer_zero_length_fails : intDecodeOer 0 true [0x00] = .fail :=
+  intDecodeOer_zero_length_fails
 
 end Asn1c.Props.L1Per
